@@ -1097,3 +1097,19 @@ func (r *Rel) Reclassify() {
 		r.classifySite(s)
 	}
 }
+
+// TwinKeyResolved renders an expression with sided identifiers replaced by a placeholder,
+// after following single-definition locals, and with a trailing 1/2 of unsided names
+// (getRefFn1/getRefFn2) dropped.
+func (r *Rel) TwinKeyResolved(e ast.Expr, body ast.Node) string {
+	e = ResolveLocal(r.info, body, e)
+	k := r.twinKey(e)
+	var parts []string
+	for _, p := range strings.Fields(k) {
+		if len(p) > 1 && (strings.HasSuffix(p, "1") || strings.HasSuffix(p, "2")) {
+			p = p[:len(p)-1]
+		}
+		parts = append(parts, p)
+	}
+	return strings.Join(parts, " ")
+}
